@@ -11,6 +11,7 @@ against the source on every run (see DESIGN.md §6 C20 for what this does and
 does not establish).
 -/
 import SharkVerif.Lemmas.Par
+import SharkVerif.Lemmas.ParCrit
 import SharkVerif.Gen.ParRegions
 namespace SharkVerif.C20
 open SharkVerif.Par
@@ -101,6 +102,69 @@ theorem split_drf (iter : Nat → List (Instr V)) (assign : Nat → List Nat)
         | nil => rfl
         | cons x a iha => cases x <;> simp [crits, iha]
       simp only [List.flatMap_cons, happ, hnc i, ih, List.append_nil]
+
+/-- all critical updates of the complete programs on location `l`, thread by thread (the order a
+single-threaded run would apply them in) -/
+def seqUpd (T : Nat) (m0 : Store V) (r0 : Nat → Regs V) (progs : Nat → List (Instr V)) (l : Loc) : List (V → V) :=
+  allUpd T m0 r0 progs (fun t => (progs t).length) l
+
+/-- **Full machine: parallel loop bodies with critical sections.**  Ordinary accesses are data-race
+free, critical sections update lock-protected locations that no ordinary access touches, and the
+updates applied to a protected location commute pairwise (e.g. `acc += partial`).  Then after *every*
+complete schedule, for any number of threads:
+* a protected location holds the thread-by-thread (single-threaded order) composition of all updates,
+* every other written location holds its writer's solo value, unwritten locations are unchanged. -/
+theorem crit_schedule_independent (T : Nat) (m0 : Store V) (r0 : Nat → Regs V) (progs : Nat → List (Instr V))
+    (hok : CritOK T progs)
+    (hcomm : ∀ l, ∀ f ∈ seqUpd T m0 r0 progs l, ∀ g ∈ seqUpd T m0 r0 progs l, ∀ v, f (g v) = g (f v))
+    (s : List Nat) (hf : Finished (run (initCfg m0 r0 progs) s)) :
+    (∀ l, (∃ t, l ∈ crits (progs t)) →
+        (run (initCfg m0 r0 progs) s).mem l = applyAll (m0 l) (seqUpd T m0 r0 progs l)) ∧
+    (∀ t l, l ∈ writes (progs t) →
+        (run (initCfg m0 r0 progs) s).mem l = (solo m0 (r0 t) (progs t)).1 l) ∧
+    (∀ l, (∀ t, l ∉ writes (progs t)) → (∀ t, l ∉ crits (progs t)) →
+        (run (initCfg m0 r0 progs) s).mem l = m0 l) := by
+  obtain ⟨k, hpos, hunt, hcrit⟩ := (sim2_run hok s (sim2_init T m0 r0 progs)).ex
+  have hk : ∀ t, (progs t).take (k t) = progs t := by
+    intro t
+    have := hf t
+    rw [(hpos t).1] at this
+    exact List.take_of_length_le (List.drop_eq_nil_iff.1 this)
+  have hall : ∀ l, allUpd T m0 r0 progs k l = seqUpd T m0 r0 progs l := by
+    intro l
+    unfold seqUpd allUpd
+    congr 1
+    funext t
+    rw [hk t, List.take_of_length_le (Nat.le_refl _)]
+  refine ⟨?_, ?_, hunt⟩
+  · intro l hl
+    obtain ⟨log, hlog, hperm⟩ := hcrit l hl
+    rw [hall l] at hperm
+    rw [hlog]
+    apply applyAll_perm hperm
+    intro f hf' g hg v
+    exact hcomm l f (hperm.mem_iff.1 hf') g (hperm.mem_iff.1 hg) v
+  · intro t l hl
+    rw [(hpos t).2.2 l (Or.inr hl), hk t]
+
+/-- hence any two complete schedules of such a program end in the same store -/
+theorem crit_two_schedules_agree (T : Nat) (m0 : Store V) (r0 : Nat → Regs V) (progs : Nat → List (Instr V))
+    (hok : CritOK T progs)
+    (hcomm : ∀ l, ∀ f ∈ seqUpd T m0 r0 progs l, ∀ g ∈ seqUpd T m0 r0 progs l, ∀ v, f (g v) = g (f v))
+    (s1 s2 : List Nat)
+    (h1 : Finished (run (initCfg m0 r0 progs) s1)) (h2 : Finished (run (initCfg m0 r0 progs) s2)) :
+    (run (initCfg m0 r0 progs) s1).mem = (run (initCfg m0 r0 progs) s2).mem := by
+  obtain ⟨a1, b1, c1⟩ := crit_schedule_independent T m0 r0 progs hok hcomm s1 h1
+  obtain ⟨a2, b2, c2⟩ := crit_schedule_independent T m0 r0 progs hok hcomm s2 h2
+  funext l
+  by_cases hc : ∃ t, l ∈ crits (progs t)
+  · rw [a1 l hc, a2 l hc]
+  · by_cases hw : ∃ t, l ∈ writes (progs t)
+    · obtain ⟨t, ht⟩ := hw
+      rw [b1 t l ht, b2 t l ht]
+    · have h1' : ∀ t, l ∉ writes (progs t) := fun t ht => hw ⟨t, ht⟩
+      have h2' : ∀ t, l ∉ crits (progs t) := fun t ht => hc ⟨t, ht⟩
+      rw [c1 l h1' h2', c2 l h1' h2']
 
 /-- **Critical-section reduction.**  Thread-local partial results merged under one
 lock, `acc := acc ⊕ pₜ`, give the same accumulator for every order in which the
@@ -210,6 +274,16 @@ def racyProgs : Nat → List (Instr Nat)
 theorem racy_is_schedule_dependent :
     (run (initCfg (fun _ => 0) (fun _ _ => 0) racyProgs) [0, 0, 1, 1]).mem 0 = 2 ∧
     (run (initCfg (fun _ => 0) (fun _ _ => 0) racyProgs) [0, 1, 0, 1]).mem 0 = 1 := by decide
+
+/-- two threads, each loads its own input and adds it to the shared accumulator (location 9) under the lock -/
+def sumProgs : Nat → List (Instr Nat)
+  | 0 => [.load 0 0, .crit 9 (fun r acc => acc + r 0)]
+  | 1 => [.load 0 1, .crit 9 (fun r acc => acc + r 0)]
+  | _ => []
+
+/-- both interleavings of `sumProgs` (and hence all, by the theorem) give 100 + 5 + 6 -/
+example : (run (initCfg (fun l => if l = 9 then 100 else l + 5) (fun _ _ => 0) sumProgs) [0, 1, 1, 0]).mem 9 = 111 ∧
+          (run (initCfg (fun l => if l = 9 then 100 else l + 5) (fun _ _ => 0) sumProgs) [1, 1, 0, 0]).mem 9 = 111 := by decide
 
 example : Gen.ParRegions.Site1.start 10 4 1 = 3 ∧ Gen.ParRegions.Site1.stop 10 4 3 = 10 := by decide
 
